@@ -36,8 +36,9 @@ CONSTANTS Shapes,       \* block shapes [name |-> STRING, ntx |-> Nat, logs |-> 
           W,            \* HEADER_INDEX_MAX_SIZE
           S,            \* BloomBitsBlocks
           BitsOf(_),    \* item -> set of bloom bit positions (bloom9 of the address / topic)
-          BodyChecked,  \* named deviation: TRUE = design intent (a body that does not match the header's transaction
-                        \* root is always refused); FALSE = the code as it is (only Block.Deserialization compares them)
+          BodyChecked,  \* named deviation: TRUE = design intent and the code since fix dc238bda (verifyBlockBody: a body that
+                        \* does not match the header's transaction root is always refused); FALSE = the code before the
+                        \* fix (only Block.Deserialization compared them)
           AllowRestart, \* BOOLEAN
           AllowSync,    \* BOOLEAN: is SyncHeader (header sync ahead of the blocks) part of the behaviours
           FreshInits    \* set of initial values of `fresh`
@@ -112,10 +113,10 @@ Outcome(p, sh, m) ==
     ELSE IF m.ts # "gt" THEN "timestamp"                             \* verifyHeader: timestamp
     ELSE IF m.keepers # "ok" THEN "bookkeeper"                       \* verifyHeader: bookkeeper address
     ELSE IF m.sigs # "ok" THEN "signature"                           \* verifyHeader: VerifyMultiSignature
+    ELSE IF ~BodyMatches(m) /\ BodyChecked THEN "txroot"             \* verifyBlockBody (AddBlock/SubmitBlock, since dc238bda)
     ELSE IF m.body = "evmnonce" THEN "exec"                          \* executeBlock: handleTransaction error
     ELSE IF m.sroot = "bad" /\ nexec > 0 THEN "stateroot"            \* saveBlock (empty blocks are not checked)
     ELSE IF m.broot = "bad" \/ RootInconsistent(m) THEN "blockroot"  \* submitBlock
-    ELSE IF ~BodyMatches(m) /\ BodyChecked THEN "txroot"             \* (design intent only)
     ELSE "ok"
 
 BloomOf(sh) == UNION {BitsOf(l[1]) \cup BitsOf(l[2]) : l \in sh.logs}
